@@ -726,6 +726,10 @@ INFER_PRELUDE = '''class Opt<T>(Non, Som(T)) {
   method orElse(d: T): T = match this { Som(v) -> v, Non -> d }
 }
 class Pr<A, B>(val fst: A, val snd: B) {}
+class Bx2<T>(val v: T) {
+  method <U> conv(extra: U, f: (T, U) -> Opt<U>): Opt<U> = f(this.v, extra)
+  method same(o: T): T = this.v
+}
 '''
 
 INFER_HELPERS = '''  function <T> pick(f: (int) -> Opt<T>, d: T): T = f(1).orElse(d)
@@ -734,6 +738,7 @@ INFER_HELPERS = '''  function <T> pick(f: (int) -> Opt<T>, d: T): T = f(1).orEls
   function <T> twice(f: (T) -> T, x: T): T = f(f(x))
   function <A, B> mk(a: A, f: (A) -> B): Pr<A, B> = Pr.init(a, f(a))
   function <T> first(o: Opt<T>, p: Opt<T>): Opt<T> = match o { Som(_) -> o, Non -> p }
+  function f3w(f: (int, int, int) -> int, k: int): int = f(k, k + 1, k + 2)
 '''
 
 # bodies of type int whose acceptance depends on how much the checker infers from hints: lambdas whose body needs the
@@ -759,10 +764,20 @@ INFER_TEMPLATES = [
     '{ let @x = (@y: int) -> Opt.Som(@y); @x(@k).orElse(@j) }',
     'if @k > @j { Main.pick((@x) -> Opt.Non(), 1) } else { Main.pick((@x) -> Opt.Som(@x), 2) }',
     'match Opt.Som(@k) { Som(@x) -> Main.app((@y) -> @y + @x, @j), Non -> 0 }',
+    # a generic method of a generic class taken as a function value (class and method type arguments differ)
+    '{ let @x: (bool, (int, bool) -> Opt<bool>) -> Opt<bool> = Bx2.init(@k).conv; if @x(true, (@y, @z) -> Opt.Som(@z && @y > @j)).orElse(false) { 1 } else { 0 } }',
+    # ... with type arguments of different run-time representation (int vs a pointer)
+    '{ let @x: (Str, (int, Str) -> Opt<Str>) -> Opt<Str> = Bx2.init(@k).conv; if @x("a", (@y, @z) -> Opt.Som(@z :: Str.fromInt(@y))).orElse("") == "a@k" { 1 } else { @j } }',
+    '{ let @x: (int, (Str, int) -> Opt<int>) -> Opt<int> = Bx2.init("s@k").conv; @x(@j, (@y, @z) -> if @y == "s@k" { Opt.Som(@z + 1) } else { Opt.Non() }).orElse(0) }',
+    '{ let @x = Bx2.init(@k).same; @x(@j) }',
+    # lambdas whose parameters are only partly annotated (one of several parser productions for `(a, b, c: T) -> e`)
+    'Main.f3w((@x, @y, @z: int) -> @x + @y * @z, @k)',
+    'Main.f3w((@x, @y: int, @z) -> { let w = @x - @y; w + @z }, @j)',
+    'Main.f3w((@x: int, @y, @z) -> @x, @k) + Main.app((@x: int) -> @x + 1, @j)',
 ]
 
 
-def gen_infer_program(rng, nfun=8):
+def gen_infer_program(rng, nfun=10):
     """Programs whose type checking leans on inference: generic calls with lambda arguments, generic constructors without
     type arguments, nested lambdas. All templates are accepted as written; rewrites that make an inferred type explicit
     (parameter annotations, explicit type arguments) or wrap an argument in a block / parentheses must keep them accepted."""
@@ -787,6 +802,32 @@ ORDER_PRELUDE = '''class Bx(val v: int) {
 }
 class Pr2(val a: int, val b: int) {}
 '''
+
+
+INFER_VIOLATIONS = [
+    ('lambda-result-vs-fixed-type-parameter', 'Main.twice((@x) -> "s", @k)'),
+    ('lambda-result-vs-fixed-type-parameter', 'Main.fold(@k, @j, (@x, @y) -> "not a number") + 1'),
+    ('lambda-result-vs-fixed-type-parameter', 'Main.mk(@k, (@x) -> @x).snd.orElse(0)'),
+    ('lambda-parameter-use-vs-fixed-type-parameter', 'Main.app((@x) -> @x.orElse(1), @k)'),
+    ('lambda-result-vs-return-hint', 'Main.pick((@x) -> @x, @k)'),
+    ('second-lambda-vs-first', 'Main.comp((@x) -> Opt.Som(@x), (@y) -> @y + 1, @k)'),
+    ('method-value-annotation-mismatch', '{ let @x: (bool, (Str, bool) -> Opt<bool>) -> Opt<bool> = Bx2.init(@k).conv; 0 }'),
+]
+
+
+def infer_violation_programs(rng):
+    """One module per violation: a generic call whose lambda argument conflicts with a type parameter that another argument
+    (or the expected result type) fixes. Every one must be rejected with an error in Main."""
+    out = []
+    names = ['x', 'y', 'z', 'u', 'v', 'w']
+    for kind, tpl in INFER_VIOLATIONS:
+        x, y, z = rng.shuffle(names)[:3]
+        body = (tpl.replace('@x', x).replace('@y', y).replace('@z', z).replace('@k', str(rng.range(0, 9))).replace('@j', str(rng.range(0, 9))))
+        text = (INFER_PRELUDE + 'class Main {\n' + INFER_HELPERS +
+                '  function <A, B> fold(init: B, item: A, f: (B, A) -> B): B = f(init, item)\n'
+                '  function bad(): int = %s\n  function main(): unit = Process.println(Str.fromInt(Main.bad()))\n}\n' % body)
+        out.append((kind, {'sources': {'Main': text}, 'entry': 'Main', 'mutated': 'Main'}))
+    return out
 
 
 def gen_order_program(rng, nfun=8):
